@@ -200,8 +200,6 @@ def run_config(cfg):
     import random
     from configparser import ConfigParser
     from jellyfysh import run as jf_run
-    from jellyfysh.base import factory  # noqa
-    import jellyfysh.base.uuid  # noqa
 
     stats = {"config": cfg["ini"], "commits": 0, "changed_between_commits": 0, "insert_not_exact": 0,
              "units_inserted": 0, "examples": [], "extract_changed_state": 0, "extracts": 0}
@@ -209,7 +207,6 @@ def run_config(cfg):
     last_after = [None]
     orig_insert = TreeStateHandler.insert_into_global_state
     orig_extract = TreeStateHandler.extract_from_global_state
-    orig_active = TreeStateHandler.extract_active_global_state
 
     def snap(sh):
         d = {}
@@ -294,10 +291,8 @@ def run_config(cfg):
     finally:
         TreeStateHandler.insert_into_global_state = orig_insert
         TreeStateHandler.extract_from_global_state = orig_extract
-        TreeStateHandler.extract_active_global_state = orig_active
         try:
             setting.reset()
-            from jellyfysh.activator.internal_state.cell_occupancy.cells import cells as _c  # noqa
         except Exception:  # noqa
             pass
     return stats
